@@ -95,6 +95,8 @@ pub fn value_bytes(v: &Value) -> Vec<u8> {
 pub struct Out {
     w: std::io::BufWriter<std::fs::File>,
     pub events: u64,
+    /// flush after every event (a child process that may be killed by the case it runs)
+    flush_each: bool,
 }
 
 impl Out {
@@ -102,6 +104,7 @@ impl Out {
         Out {
             w: std::io::BufWriter::new(std::fs::File::create(path).expect("create trace file")),
             events: 0,
+            flush_each: std::env::var("VH_CHILD").is_ok(),
         }
     }
     pub fn emit(&mut self, v: Value) {
@@ -111,6 +114,9 @@ impl Out {
         }
         serde_json::to_writer(&mut self.w, &v).expect("write trace");
         self.w.write_all(b"\n").expect("write trace");
+        if self.flush_each {
+            let _ = self.w.flush();
+        }
         self.events += 1;
     }
     pub fn finish(mut self) {
